@@ -142,7 +142,7 @@ class Frame:
 class Explorer:
     """Enumerates the paths of a harness; collects obligations and statistics."""
 
-    def __init__(self, name: str, max_paths: int = 4000, query_timeout_ms: int = 20000,
+    def __init__(self, name: str, max_paths: int = 4000, query_timeout_ms: int = 90000,
                  feas_timeout_ms: int = 3000):
         self.name = name
         self.max_paths = max_paths
